@@ -8,7 +8,7 @@ CONF = {
                     'duplicate-drop', 'wrap-crossed', 'limit-flush', 'age-flush', 'late-syn', 'keep-from', 'multi-page'],
     'rule': '120 exhaustive arrival orders of SYN + 4 segments at the wrap (thorough: 6 ISNs x 3 cut patterns x with/without a flush), then seeded random segment scripts for one half-connection through Assembler.AssembleWithContext with real layers.TCP: sender stream S (0..6000 random bytes), ISN uniform or placed so that 0 / 2^30 / 2^31 / 3*2^30 / 2^32 falls inside or next to the stream, random segmentation, bounded-displacement permutation, held-back early segment, duplicates, overlapping retransmissions with consistent data aimed at the six checkOverlap cases, SYN first/late/absent/duplicated/forced start, FIN/bare FIN/RST, FlushCloseOlderThan/FlushWithOptions/FlushAll interleaved, page limits {0,1,2,5}, KeepFrom scripts; after every op the ReassembledSG calls (Fetch of everything, Info, Lengths), ReassemblyComplete, StreamFactory.New and pageCache.used are compared with the model; the Go oracle rebuilds the stream by absolute offsets.',
     'shrink_keep_first': 3,
-    'assumptions': ['model variant: the runner models the repository with the four C09 fix: commits (variant fixedv = 111100); set C09_VARIANT=111111 when the repository also has the two C11 page-accounting fixes of branch agent-c11 (fullv; validated against that branch), C09_VARIANT=000000 for the unchanged tree',
+    'assumptions': ['model variant: the runner models the repository with the four C09 fix: commits and the two C11 page-accounting fixes (variant fullv = 111111); C09_VARIANT=000000 selects the model of the tree before the repairs',
                     'one half-connection, one assembler; Accept returns true; ReassemblyComplete returns true',
                     'window hypothesis for the theorems: live offsets within 2^30 (the generator keeps streams <= 6000 bytes)',
                     'Go int / int64 arithmetic of Sequence does not overflow (values < 2^33)'],
